@@ -59,6 +59,26 @@ func main() {
 			fmt.Println("queries kept in", workDir)
 		}
 		os.Exit(code)
+	case "selftest":
+		os.MkdirAll(filepath.Join(verifDir, ".work"), 0o755)
+		workDir, _ = os.MkdirTemp(filepath.Join(verifDir, ".work"), "selftest-")
+		only := ""
+		if len(os.Args) > 2 {
+			only = os.Args[2]
+		}
+		code := runSelftest(repo, verifDir, only)
+		os.RemoveAll(workDir)
+		os.Exit(code)
+	case "replay":
+		if len(os.Args) < 3 {
+			fmt.Fprintln(os.Stderr, "usage: gocv replay <file>")
+			os.Exit(2)
+		}
+		os.MkdirAll(filepath.Join(verifDir, ".work"), 0o755)
+		workDir, _ = os.MkdirTemp(filepath.Join(verifDir, ".work"), "replay-")
+		code := runReplayFile(repo, verifDir, os.Args[2])
+		os.RemoveAll(workDir)
+		os.Exit(code)
 	default:
 		fmt.Fprintln(os.Stderr, "unknown command", os.Args[1])
 		os.Exit(2)
